@@ -55,8 +55,17 @@ func c07Round(c *Ctx, be string, round int, seed int64) bool {
 	regId := fixedId(999999)
 	reg := d.NewDocumentOf(map[string]interface{}{"_id": regId, "v": int64(0), "tag": "reg"})
 	db.Insert("s", reg)
+	// documents every writer tries to delete by id: concurrent deletes of the same id must count once
+	victims := []string{}
+	vdocs := []*d.Document{}
+	for i := 0; i < 6; i++ {
+		id := fixedId(800000 + i)
+		victims = append(victims, id)
+		vdocs = append(vdocs, d.NewDocumentOf(map[string]interface{}{"_id": id, "tag": "victim", "x": int64(i)}))
+	}
+	db.Insert("s", vdocs...)
 	rng := rand.New(rand.NewSource(seed))
-	nWriters := 1 + rng.Intn(3)
+	nWriters := 2 + rng.Intn(3)
 	nReaders := 1 + rng.Intn(3)
 	var wg sync.WaitGroup
 	var failMu sync.Mutex
@@ -121,6 +130,12 @@ func c07Round(c *Ctx, be string, round int, seed int64) bool {
 					}
 					finalExpect.Store(tag, [2]int64{0, 0})
 				}
+				if it < len(victims) {
+					if err := retry(func() error { return db.DeleteById("s", victims[it]) }); err != nil {
+						fail("DeleteById failed: " + err.Error())
+						return
+					}
+				}
 				// read-modify-write on the shared counter
 				if err := retry(func() error {
 					return db.UpdateById("s", regId, func(doc *d.Document) *d.Document {
@@ -165,6 +180,9 @@ func c07Round(c *Ctx, be string, round int, seed int64) bool {
 					byTag[t] = append(byTag[t], doc)
 				}
 				for t, ds := range byTag {
+					if t == "victim" {
+						continue
+					}
 					if t == "reg" {
 						v := ds[0].Get("v").(int64)
 						if v < lastReg {
@@ -264,6 +282,12 @@ func c07Round(c *Ctx, be string, round int, seed int64) bool {
 			}
 			return true
 		})
+		if n, _ := db.Count(query.NewQuery("s")); failure == "" {
+			all, _ := db.FindAll(query.NewQuery("s"))
+			if n != len(all) {
+				failure = fmt.Sprintf("after concurrent deletes of the same ids Count is %d but FindAll returns %d documents", n, len(all))
+			}
+		}
 		if p := im.InvProblems(); p != "" && failure == "" {
 			failure = "after the concurrent round the stored state is inconsistent: " + p
 		}
